@@ -48,11 +48,11 @@ fn run_doc(o: &mut Outcome, case: &Value) {
         let same = fp["sameLine"].as_bool().unwrap();
         if same { if pats.len() > 1 { feats.push("patterns_same_line".into()); } } else { feats.push("patterns_continuation".into()); }
         let files = if same { pats.join(" ") } else if pats.len() == 1 { format!("\n {}", pats[0]) } else { pats.join("\n ") };
-        text.push_str(&format!("\nFiles: {}\nCopyright: 2020 X\nComment: fp{}\nLicense: L{}\n", files, k + 1, fp["lic"]));
+        text.push_str(&format!("\nFiles: {}\nCopyright: 2020 X\nComment: fp{}\nLicense: {}\n", files, k + 1, lname(&fp["lic"])));
         if fp["inline"].as_bool().unwrap() { text.push_str(&format!(" inline text {}\n", k + 1)); }
     }
     let sl = case["sl"].as_array().unwrap();
-    for (n, name) in sl.iter().enumerate() { text.push_str(&format!("\nLicense: L{}\n S{} text\n", name, n + 1)); }
+    for (n, name) in sl.iter().enumerate() { text.push_str(&format!("\nLicense: {}\n S{} text\n", lname(name), n + 1)); }
     feats.sort(); feats.dedup();
     let ll = match guarded("lossless::Copyright::from_str", || debian_copyright::lossless::Copyright::from_str(&text)) {
         Ok(Ok(c)) => Some(c), Ok(Err(e)) => { o.v("C17", "lookup", "lossless::Copyright::from_str", "mismatch", &feats, &text, format!("rejected: {}", e)); None } Err(m) => { o.v("C17", "lookup", "lossless::Copyright::from_str", "panic", &feats, &text, m); None } };
@@ -67,8 +67,8 @@ fn run_doc(o: &mut Outcome, case: &Value) {
         let lf = &case["lf"][i];
         let want_comment = if ff == 0 { None } else { Some(format!("fp{}", ff)) };
         let want_lic: Option<(String, String)> = match lf[0].as_str().unwrap() {
-            "inline" => Some((format!("L{}", lf[1]), format!("inline text {}", lf[2]))),
-            "standalone" => Some((format!("L{}", lf[1]), format!("S{} text", lf[2]))),
+            "inline" => Some((lname(&lf[1]), format!("inline text {}", lf[2]))),
+            "standalone" => Some((lname(&lf[1]), format!("S{} text", lf[2]))),
             _ => None,
         };
         let ctx = format!("path {:?} in {:?}", p, text);
@@ -97,11 +97,17 @@ fn run_doc(o: &mut Outcome, case: &Value) {
         }
     }
     // by-name lookup: first stand-alone paragraph of that name
-    if let Some(c) = &ll {
-        for name in 1..=2u64 {
-            let want = sl.iter().position(|n| n.as_u64() == Some(name)).map(|n| format!("S{} text", n + 1));
-            if let Ok(got) = guarded("lossless::Copyright::find_license_by_name", || c.find_license_by_name(&format!("L{}", name)).and_then(|l| l.text().map(|s| s.to_string()))) {
-                if got != want { o.v("C17", "licence_by_name", "lossless::Copyright::find_license_by_name", "mismatch", &feats, &text, format!("L{}: got {:?} expected {:?}", name, got, want)); }
+    for name in 1..=3u64 {
+        let want = sl.iter().position(|n| n.as_u64() == Some(name)).map(|n| format!("S{} text", n + 1));
+        let nm = lname(&json!(name));
+        if let Some(c) = &ll {
+            if let Ok(got) = guarded("lossless::Copyright::find_license_by_name", || c.find_license_by_name(&nm).and_then(|l| l.text().map(|s| s.to_string()))) {
+                if got != want { o.v("C17", "licence_by_name", "lossless::Copyright::find_license_by_name", "mismatch", &feats, &text, format!("{}: got {:?} expected {:?}", nm, got, want)); }
+            }
+        }
+        if let Some(c) = &ly {
+            if let Ok(got) = guarded("lossy::Copyright::find_license_by_name", || c.find_license_by_name(&nm).and_then(|l| l.text().map(|s| s.to_string()))) {
+                if got != want { o.v("C17", "licence_by_name", "lossy::Copyright::find_license_by_name", "mismatch", &feats, &text, format!("{}: got {:?} expected {:?}", nm, got, want)); }
             }
         }
     }
@@ -114,6 +120,9 @@ fn run_doc(o: &mut Outcome, case: &Value) {
     }
     if o.sample.is_null() { o.sample = json!({"text": text, "paths": dpaths, "expected_files_paragraph": case["ff"], "expected_licence": case["lf"]}); }
 }
+
+/// licence names: ids 1, 2 are different names, id 3 differs from id 1 by case only (names are compared exactly)
+fn lname(id: &Value) -> String { ["L1", "L2", "l1"][id.as_u64().unwrap_or(1) as usize - 1].to_string() }
 
 pub fn run(case: &Value, _seed: u64) -> Outcome {
     let mut o = Outcome::default();
